@@ -92,7 +92,17 @@ impl Renderer {
                 }
             }
         }
-        let choice = if cands.is_empty() {
+        // a pointer to a bare root label (any zero octet written so far outside the header's count fields) after
+        // all the labels: the longest possible first chunk for a name
+        let zeros: Vec<usize> = if comp % 5 == 2 && !name.labels.is_empty() {
+            // (not the header's count fields: records appended or removed later change them)
+            self.buf.iter().enumerate().filter(|(i, b)| **b == 0 && *i < 0x3fff && !(4..12).contains(i)).map(|(i, _)| i).collect()
+        } else {
+            Vec::new()
+        };
+        let choice = if !zeros.is_empty() {
+            Some((name.labels.len(), zeros[pick(comp, zeros.len())]))
+        } else if cands.is_empty() {
             None
         } else {
             // comp in 1..=65535 spreads over candidates; most of the range picks the longest suffix
@@ -233,7 +243,7 @@ pub fn comp_sel() -> impl Strategy<Value = u16> {
 }
 
 pub fn gen_name() -> impl Strategy<Value = MName> {
-    prop_oneof![8 => pool_name(4), 1 => arb_name()]
+    prop_oneof![16 => pool_name(4), 2 => arb_name(), 1 => crate::gen::boundary_name()]
 }
 
 fn name_field() -> impl Strategy<Value = FieldSpec> {
